@@ -1,4 +1,4 @@
-REPO_FIX_COMMITS = ['2d7a94d', '41c6b34', '15c99e7', '0752c0c', '7f84765', 'af57352', 'e33a24d', '5bdc6b3', '08843a4', '3e03bb0']
+REPO_FIX_COMMITS = ['2d7a94d', '41c6b34', '15c99e7', '0752c0c', '7f84765', 'af57352', 'e33a24d', '5bdc6b3', '08843a4', '3e03bb0', 'd823a64', '3ba8645', '9eda77c', 'f97803c']
 NOT_APPLICABLE = {}
 CHECKS = {
  'C18': dict(
@@ -68,4 +68,12 @@ CHECKS = {
   note='Well-founded pickup/solve sets only (DESIGN 3/C01); histories are generated as data rather than with '
        'RuleBasedStateMachine so that they are JSON replay files as they stand.',
   design='3/C01'),
+ 'C19': dict(
+  technique='round-trip property over Hypothesis-generated full-feature lenses and edit histories (dict -> JSON -> dict, '
+            'and through a file), with differential tracing of the original against the reloaded lens',
+  level='For generated lenses covering every serialisable feature, before and after generated edit histories, the '
+        'dictionary must survive json.dumps, the reloaded dictionary must equal the source exactly, a generated ray '
+        'bundle must trace bit-identically and ten paraxial accessors must be identical. Counter-example search.',
+  note='Scatter surfaces take only the dictionary clauses; lenses are brought to a state through the public API only.',
+  design='3/C19'),
 }
